@@ -3,11 +3,12 @@ from ..core.model import Program
 from ..core.report import CheckContext
 from ..core.resolve import Resolver
 from ..rules import tables
-from .common import run_control
+from .common import run_control, generic_rules
 
 
 def analyse(ctx: CheckContext, p: Program):
     r = Resolver(p)
+    generic_rules(ctx, p, r, "C13")
     tables.check_graph_tables(ctx, p, r)
     tables.check_traversal(ctx, p, r)
 
